@@ -706,6 +706,26 @@ class Translator:
             return 0
         return None
 
+    def virtual_vptr(s, callee):
+        """SSA name of the vtable pointer the callee was loaded through (see virtual_slot)"""
+        d = s.defs.get(callee)
+        names = [v for k, v in d[3:] if k in ('name', 'qname') and v[0] == '%' and v not in s.m.types]
+        src = names[-1]; g = s.defs.get(src)
+        if g[2][1] == 'getelementptr':
+            return [v for k, v in g[3:] if k in ('name', 'qname') and v[0] == '%' and v not in s.m.types][0]
+        return src
+
+    def vptr_cands(s, slot, key):
+        """(vtable, sub-vtable index, function) for every address point in the closure whose entry at `slot` has the signature shape `key`"""
+        s.vtable_slots()
+        if not hasattr(s, '_vpts'): s._vpts = s.vtable_points()
+        out = []
+        for n, ai, top, ti in s._vpts:
+            fn = s._vsub.get((n, ai), {}).get(slot)
+            if fn is None: continue
+            if s.loose_key(s.m.funcs[fn].ftype if fn in s.m.funcs else s.m.decls[fn]) == key: out.append((n, ai, fn))
+        return out
+
     # ---------------------------------------------------------------- big constant tables
     def find_bigtabs(s):
         em = s.em
@@ -1080,6 +1100,12 @@ class Translator:
             succ[lab] = out
         order = []; seen = set()
         entry = blocks[0][0]
+        # loop depth of every block (natural loops from dominators): successors are visited shallowest-first, so that the blocks of an inner
+        # loop come out contiguous and textually nested inside the outer loop (CBMC's unwinding counters assume properly nested backward gotos;
+        # with LLVM's "outer"/"inner" split of a loop with two back edges plain RPO interleaved them and the unwinding assertion failed at
+        # every bound)
+        depth = s.loop_depth(entry, succ)
+        for lab in succ: succ[lab] = sorted(succ[lab], key=lambda x: depth.get(x, 0))
         stack = [(entry, iter(succ[entry]))]; seen.add(entry)
         while stack:
             lab, it = stack[-1]
@@ -1094,6 +1120,41 @@ class Translator:
         res = [[lab, bymap[lab]] for lab in order]
         res += [[lab, ins] for lab, ins in blocks if lab not in seen]   # unreachable blocks keep their place at the end
         return res
+
+    def loop_depth(s, entry, succ):
+        nodes = []; seen = {entry}; st = [entry]
+        while st:
+            n = st.pop(); nodes.append(n)
+            for m in succ.get(n, ()):
+                if m in succ and m not in seen: seen.add(m); st.append(m)
+        if len(nodes) > 1500: return {}
+        pred = dict((n, []) for n in nodes)
+        for n in nodes:
+            for m in succ.get(n, ()):
+                if m in pred: pred[m].append(n)
+        allset = set(nodes); dom = dict((n, allset) for n in nodes); dom[entry] = {entry}
+        changed = True
+        while changed:
+            changed = False
+            for n in nodes:
+                if n == entry: continue
+                ps = [dom[p] for p in pred[n]]
+                nd = (set.intersection(*ps) if ps else set()) | {n}
+                if nd != dom[n]: dom[n] = nd; changed = True
+        depth = dict((n, 0) for n in nodes)
+        loops = {}
+        for u in nodes:
+            for h in succ.get(u, ()):
+                if h in dom.get(u, ()):        # back edge u -> h
+                    body = loops.setdefault(h, {h})
+                    st = [u]
+                    while st:
+                        x = st.pop()
+                        if x in body: continue
+                        body.add(x); st.extend(pred[x])
+        for h, body in loops.items():
+            for b in body: depth[b] += 1
+        return depth
 
     def expand_gep(s, expr, depth=0):
         if depth > 6: return expr
@@ -1467,12 +1528,23 @@ class Translator:
                 if slot is not None:
                     key = s.loose_key(fty)
                     shape = [(c, vt) for c, vt in s.vtable_slots().get(slot, ()) if s.loose_key(s.m.funcs[c].ftype if c in s.m.funcs else s.m.decls[c]) == key]
-                    cands = s.precise_cands(slot, fty, key)
-                    if not cands: cands = sorted(set(c for c, vt in shape if s.class_compatible(vt, fty)))
-                    if not cands: cands = sorted(set(c for c, vt in shape))     # llvm-link merges isomorphic class types: the static class may be a stand-in
-                    if cands:
+                    # dispatch on the VALUE of the vtable pointer: one branch per address point of the closure whose entry at this slot has
+                    # this signature shape (static pointee types are unreliable after optimisation: vptr-only classes are isomorphic), plus
+                    # harness-supplied targets (vx_vslot_*) compared by function address for objects with a fake vtable
+                    vc = s.vptr_cands(slot, key)
+                    hints = sorted(set(c for c, vt in shape if vt == '@vx_hint'))
+                    if vc or hints:
                         s.devirt = getattr(s, 'devirt', 0) + 1
-                        return s.devirt_call(cands, ctx.lname(callee), args, dst, rt, op, normal, unwind)
+                        return s.devirt_call(vc, hints, ctx.lname(s.virtual_vptr(callee)), ctx.lname(callee), args, dst, rt, op, normal, unwind)
+                s.raw_indirect = getattr(s, 'raw_indirect', []) + ['slot=%s this=%s' % (slot, s.static_ti(fty))]
+                if slot is not None:
+                    # a virtual call for which the closure holds no target at all: the receiver's class is not part of the closure.  A raw call
+                    # through the pointer would make CBMC try every address-taken function; reaching it is reported as outside the encoding.
+                    out.append('__VX_ASSERT(0, "VX-INTERNAL: virtual call on an object whose class is not part of the closure"); __CPROVER_assume(0);')
+                    if dst is not None and not isinstance(em.resolve(rt), VoidT):
+                        out += s.define(dst, rt, '(%s)0' % em.ctype(rt))
+                    if op == 'invoke': out.append(s.goto(normal))
+                    return out
             if name == '@__cxa_throw' and len(args) == 3 and args[2].gbase:
                 s.throw_dtors.add(args[2].gbase[0])
             if name == '@__CPROVER_assert':
@@ -1556,24 +1628,32 @@ class Translator:
             return 'p' if isinstance(rt, PtrT) else rt.key()
         return (k(ft.ret), tuple(k(p) for p in ft.params), ft.varargs)
 
-    def devirt_call(s, cands, fp, args, dst, rt, op, normal, unwind):
-        """virtual call: explicit dispatch over the functions found at this vtable slot with exactly this signature"""
+    def devirt_call(s, vcands, hints, vptr, fp, args, dst, rt, op, normal, unwind):
+        """virtual call: explicit dispatch on the vtable pointer over the address points of the closure (no load from a vtable through a
+        symbolic pointer is needed to decide the target), then on the function address for harness-supplied targets"""
         em = s.em; out = []
         void = isinstance(em.resolve(rt), VoidT)
         if dst is not None and not void:
             s.ctx.vals[dst] = rt; s.decls.append('%s %s;' % (em.ctype(rt), s.ctx.lname(dst)))
-        chain = []
-        for c in cands:
+        def callx(c):
             cft = s.m.funcs[c].ftype if c in s.m.funcs else s.m.decls[c]
             al = ', '.join(('(%s)%s' % (em.ctype(pt), a.c)) if isinstance(em.resolve(pt), PtrT) else a.c for a, pt in zip(args, cft.params))
-            callx = '%s(%s)' % (gname(c), al)
+            x = '%s(%s)' % (gname(c), al)
             if dst is not None and not void:
-                callx = '%s = %s%s' % (s.ctx.lname(dst), ('(%s)' % em.ctype(rt)) if isinstance(em.resolve(rt), PtrT) else '', callx)
-            chain.append('if ((void*)%s == (void*)&%s) { %s; }' % (fp, gname(c), callx))
-        out.append(' else '.join(chain) + ' else { __VX_ASSERT(0, "virtual call target is not a vtable entry of this slot and signature in the closure"); __CPROVER_assume(0); }')
+                x = '%s = %s%s' % (s.ctx.lname(dst), ('(%s)' % em.ctype(rt)) if isinstance(em.resolve(rt), PtrT) else '', x)
+            return x
+        chain = []
+        byfn = {}
+        for n, ai, c in vcands: byfn.setdefault(c, []).append('__vx_vp == (void*)&%s.f%d.a[2]' % (gname(n), ai))
+        for c in sorted(byfn):
+            chain.append('if (%s) { %s; }' % (' || '.join(byfn[c]), callx(c)))
+        for c in hints:
+            chain.append('if ((void*)%s == (void*)&%s) { %s; }' % (fp, gname(c), callx(c)))
+        out.append('{ void* __vx_vp = (void*)%s; ' % vptr + ' else '.join(chain) + ' else { __VX_ASSERT(0, "VX-INTERNAL: virtual call target is not a vtable entry of this slot and signature in the closure"); __CPROVER_assume(0); } }')
+        allc = sorted(byfn) + hints
         if op == 'invoke':
             out.append('if (__vx_pending) { %s } else { %s }' % (s.goto(unwind), s.goto(normal)))
-        elif not all(s.nounwind(c) for c in cands):
+        elif not all(s.nounwind(c) for c in allc):
             out.append('if (__vx_pending) return %s;' % s.retzero)
         return out
 
@@ -1652,6 +1732,7 @@ def translate(text, opts=None):
     info = {'functions_defined': sorted(gname(n) for n in m.funcs), 'autostubs': sorted(gname(n) for n in tr.autostubs),
             'asserts': tr.asserts, 'bigtabs': {gname(n): len(v[2]) for n, v in tr.bigtabs.items()},
             'extern_globals': sorted(gname(n) for n, g in m.globals.items() if g[1] is None and not n.startswith('@_ZTVN10__cxxabiv1')),
+            'raw_indirect_calls': getattr(tr, 'raw_indirect', []),
             'nondet': sorted(gname(n) for n in m.decls if n.startswith('@nondet_')),
             'nondet_types': {gname(n): tr.em.ctype(ft.ret) for n, ft in m.decls.items() if n.startswith('@nondet_')}}
     return c, info
